@@ -19,12 +19,14 @@
 (*   Listed      every disagreement met on any path is in AllDIS           *)
 (*   CleanMatch  a DAG without a disagreeing node has static = run-time at *)
 (*               every node (inference and promotion compose)              *)
-(* Constants (MC_Types.cfg): MaxNodes = 3, Kinds = OpKinds (all 52 kinds). *)
+(* Constants: MC_Types.cfg MaxNodes = 2, all 52 kinds (quick);             *)
+(* MC_Types_deep.cfg MaxNodes = 3, one representative kind per table row   *)
+(* (RepKinds) in the DAGs; AllDIS always ranges over all kinds.            *)
 (* U1 validates the two tables against each other; it says nothing about  *)
 (* the code (that is Trace_Types).                                         *)
 (***************************************************************************)
 EXTENDS FATypes
-CONSTANTS MaxNodes
+CONSTANTS MaxNodes, AllKinds
 VARIABLES pool, n, clean, last
 
 vars == <<pool, n, clean, last>>
@@ -44,6 +46,13 @@ AllDIS ==
          : k \in OpKinds}
 NumWellTyped == Cardinality(UNION {{<<k, Sts(o)>> : o \in {o \in TuplesOver(Leaves, Arity(k)) : WellTyped(k, Sts(o))}} : k \in OpKinds})
 
+\* the kinds explored in DAGs: all of them, or one representative per row of the two tables
+\* (kinds of one row have literally the same TypeOf / WellTyped / NpResult case)
+RepKinds == {"lt", "eq", "logical_and", "is_finite", "logical_not", "sqrt", "negative", "square", "ceil", "sign",
+             "copysign", "conjugate", "add", "divide", "pow", "maximum", "hypot", "absolute", "real",
+             "select", "complex", "upcast", "downcast"}
+Kinds == IF AllKinds THEN OpKinds ELSE RepKinds
+
 Init == /\ pool = {} /\ n = 0 /\ clean = TRUE /\ last = <<"none">>
         /\ \A d \in AllDIS : PrintT(<<"DIS", d[1], d[2], d[3], d[4]>>)
         /\ PrintT(<<"COUNTS", Cardinality(AllDIS), NumWellTyped>>)
@@ -61,8 +70,8 @@ AddNode(k) ==
                     /\ n' = n + 1
                     /\ clean' = (clean /\ ~dis)
                     /\ last' = IF dis THEN <<k, ts, p[1], rt>> ELSE <<"none">>
-Unary == \E k \in {k \in OpKinds : Arity(k) = 1} : AddNode(k)
-Binary == \E k \in {k \in OpKinds : Arity(k) = 2} : AddNode(k)
+Unary == \E k \in {k \in Kinds : Arity(k) = 1} : AddNode(k)
+Binary == \E k \in {k \in Kinds : Arity(k) = 2} : AddNode(k)
 Ternary == AddNode("select")
 Next == Unary \/ Binary \/ Ternary
 Spec == Init /\ [][Next]_vars
